@@ -1,6 +1,7 @@
 package main
 
 import (
+	"sync"
 	"bufio"
 	"encoding/json"
 	"fmt"
@@ -584,7 +585,55 @@ func (d *cliDriver) oneCase(seed int64, id int) {
 		gmp := Mapping{B: mp.B, Scale: 1}
 		c := &cmd.GenerateCommand{Dest: dest, Perm: 0644, AggregationMethod: methodOf(cfg.Method), XFilesFactor: xffFloat(cfg.Xff),
 			ArchiveInfoList: archiveInfoList(cfg), RandMax: max, Fill: fill}
-		res := e.runCmd(c, &c.TextOut)
+		var res cmdResult
+		raceOKs := -1
+		if id%4 == 2 {
+			// several generate commands race for the same fresh destination: exactly one may create it, the others must be
+			// refused and leave the winner's file alone (several rounds: how often the window is hit depends on the load)
+			for round := 0; round < 10 && raceOKs <= 1; round++ {
+				os.Remove(dest)
+				nr := 3 + rnd.Intn(4)
+				results := make([]cmdResult, nr)
+				start := make(chan struct{})
+				var wg, ready sync.WaitGroup
+				for gi := 0; gi < nr; gi++ {
+					wg.Add(1)
+					ready.Add(1)
+					go func(gi int) {
+						defer wg.Done()
+						cc := *c
+						cc.TextOut = ""
+						cc.ArchiveInfoList = archiveInfoList(cfg)
+						ready.Done()
+						<-start
+						func() {
+							defer func() {
+								if r := recover(); r != nil {
+									results[gi].Class, results[gi].Msg = "panic", fmt.Sprint(r)
+								}
+							}()
+							results[gi].Class, results[gi].Msg = classify(cc.Execute())
+						}()
+					}(gi)
+				}
+				ready.Wait()
+				close(start)
+				wg.Wait()
+				raceOKs = 0
+				res = results[0]
+				for _, r := range results {
+					if r.Class == "ok" {
+						raceOKs++
+						res = r
+					} else if r.Class == "panic" {
+						res = r
+						break
+					}
+				}
+			}
+		} else {
+			res = e.runCmd(c, &c.TextOut)
+		}
 		hdr := MCfg{Layout: []MArch{}, Method: "?", Xff: [2]int64{0, 1}}
 		buf, _ := ioutil.ReadFile(dest)
 		snap := sfile{}
@@ -604,8 +653,16 @@ func (d *cliDriver) oneCase(seed int64, id int) {
 				post[i] = [][]interface{}{}
 			}
 		}
-		line("generate", map[string]interface{}{"cfg": cfg, "hdr": hdr, "max": max, "fill": fill, "k": res.Class, "msg": res.Msg,
-			"post": post, "again": r2.Class, "unchanged": string(buf) == string(buf2)})
+		again := r2.Class
+		if raceOKs > 1 {
+			again = "ok" // a racing generate was not refused
+		}
+		ev := map[string]interface{}{"cfg": cfg, "hdr": hdr, "max": max, "fill": fill, "k": res.Class, "msg": res.Msg,
+			"post": post, "again": again, "unchanged": string(buf) == string(buf2)}
+		if raceOKs >= 0 {
+			ev["race_oks"] = raceOKs
+		}
+		line("generate", ev)
 	case "C18":
 		it := items[0]
 		src := snapshot(it.srcs[0], srcCfg(it.srcs[0]), mp)
